@@ -427,7 +427,15 @@ class ExprMixin:
         try:
             v = ast.literal_eval(e)
         except Exception:
-            raise EngineError(f"non-constant dict literal: {ast.unparse(e)}")
+            # a dict literal with computed values: its values are evaluated (for their obligations) and the dict itself is an
+            # opaque python-side value - usable only where nothing looks inside it (e.g. passed on as **kwargs to a callee
+            # whose assumed contract ignores them)
+            if any(k is None for k in e.keys):
+                raise EngineError(f"dict literal with ** unpacking: {ast.unparse(e)}")
+            out = []
+            for s2, vals in self.ev_list(list(e.values), st):
+                out.append((s2, vals if isinstance(vals, Raised) else SV(CONST, None, None, extra=("pydict", ast.unparse(e)))))
+            return out
         return [(st, SV(CONST, None, Const(v)))]
 
     def ev_Set(self, e, st):
